@@ -1,4 +1,5 @@
 import NunavutVerif.Lemmas.PyObj
+import NunavutVerif.Lemmas.PyReflect
 /-!
 # C18 — generated Python data objects validate, reflect and convert faithfully
 
@@ -8,8 +9,10 @@ Quantifiers: all field types, all candidate values of the modelled Python univer
 same-dtype arrays convert to themselves), all constructor argument lists, all assignment sequences, all well-typed
 objects.  The concrete oracle run by the driver is the lawful `numpy` (Lemmas).
 
-Statement 3 of the property (`_MODEL_` equals the source model) is about `pickle`/`gzip`/`base85` of the Python
-runtime and has no model here; it is checked structurally on every generated class by the harness.
+Statement 3 of the property (`_MODEL_` equals the source model): the logic of Nunavut — which model object is handed
+to which class template, that a run writes every output whatever the directory holds, the package aliases — is
+modelled in `Model/PyReflect.lean` and proved in section 3b; `pickle`/`gzip`/`base85` of the Python runtime enter as
+an abstract codec with `dec (enc m) = some m` and are tied by executing the generated modules.
 -/
 namespace NunavutVerif.PyObj
 
@@ -97,6 +100,130 @@ example : setField npArray (.arr false 3 (.float 32 false)) (.list [.float (.fin
 /-- … an array of composites accepts anything (`obj.vin = [1]`). -/
 example : setField npArray (.arr false 2 (.comp 7 false [])) (.list [.int 1]) = .ok (.nd .obj [.int 1]) := by rfl
 
+/-- The excluded region of `C18_setter_sound_partial` is exact: for **every** field type outside `fullyChecked` (of a
+shape DSDL admits, capacity ≥ 1) there is a candidate — a full-length ndarray of the element dtype holding `max + 1`
+of the narrower DSDL integer type, resp. integers in an array of composites — that the setter stores although it is not
+a value of the field's type.  No oracle is involved (the zero-copy binding). -/
+theorem C18_setter_unsound_outside_fullyChecked (np : Oracle) (t : Ty) (hw : wf t = true)
+    (hcap : ∀ fixed cap e, t = .arr fixed cap e → 1 ≤ cap) (hck : fullyChecked t = false) :
+    ndOK (unsoundWitness t) = true ∧ setField np t (unsoundWitness t) = .ok (unsoundWitness t)
+      ∧ hasTy true t (unsoundWitness t) = false := by
+  cases t with
+  | bool => simp [fullyChecked] at hck
+  | int s w c => simp [fullyChecked] at hck
+  | float w c => simp [fullyChecked] at hck
+  | comp cls u fs => simp [fullyChecked] at hck
+  | arr fixed cap e =>
+    have hc := hcap fixed cap e rfl
+    obtain ⟨n, rfl⟩ : ∃ n, cap = n + 1 := ⟨cap - 1, by omega⟩
+    cases e with
+    | bool => simp [fullyChecked] at hck
+    | float w c => simp [fullyChecked] at hck
+    | arr f2 c2 e2 => simp [wf, isArr] at hw
+    | int s w c =>
+      simp only [fullyChecked, decide_eq_false_iff_not] at hck
+      simp only [wf, isArr, Bool.not_false, Bool.true_and, Bool.and_eq_true, decide_eq_true_eq] at hw
+      have hlt : w < pickWidth w := by have := le_pickWidth w hw.2; omega
+      have hin := inDT_hi_succ s w c hw.1 hlt
+      have hbad : hasTy true (.int s w c) (.int (intHi s w + 1)) = false := by
+        simp only [hasTy, Bool.and_eq_false_iff, decide_eq_false_iff_not]; right; omega
+      refine ⟨?_, ?_, ?_⟩
+      · simp [unsoundWitness, ndOK, List.replicate_succ, hin]
+      · simpa [unsoundWitness, setField] using
+          assignArray_nd_same np fixed (n + 1) (.int s w c) (List.replicate (n + 1) (.int (intHi s w + 1)))
+            (by rw [List.length_replicate]; exact lenOK_self _ _)
+      · have hall : (List.replicate (n + 1) (Py.int (intHi s w + 1))).all (hasTy true (.int s w c)) = false := by
+          simp [List.replicate_succ, hbad]
+        simp only [unsoundWitness, hasTy, primNonInt, isInt, hall, Bool.not_true, Bool.and_false, Bool.or_false,
+          Bool.and_false]
+    | comp cls u fs =>
+      refine ⟨?_, ?_, ?_⟩
+      · simp [unsoundWitness, ndOK, dtypeOf, inDT]
+      · simpa [unsoundWitness, setField] using
+          assignArray_nd_same np fixed (n + 1) (.comp cls u fs) (List.replicate (n + 1) (.int 1))
+            (by rw [List.length_replicate]; exact lenOK_self _ _)
+      · simp [unsoundWitness, hasTy, primNonInt, isInt, List.replicate_succ]
+
+/-- T1 restated as tightly as the unchanged code allows: the setter of a field type establishes full DSDL
+well-typedness for every candidate **iff** the type is `fullyChecked` — i.e. the failure region is exactly "array of
+integers narrower than their numpy dtype, or array of composites" (known finding `py-array-elements-not-range-checked`). -/
+theorem C18_setter_sound_iff_fullyChecked (np : NumPy) (t : Ty) (hw : wf t = true)
+    (hcap : ∀ fixed cap e, t = .arr fixed cap e → 1 ≤ cap) :
+    (∀ x v, ndOK x = true →
+        (∀ cls u fs slots, t = .comp cls u fs → x = .obj cls slots → hasTy true t x = true) →
+        setField np.array t x = .ok v → hasTy true t v = true)
+      ↔ fullyChecked t = true := by
+  constructor
+  · intro h
+    cases hck : fullyChecked t with
+    | true => rfl
+    | false =>
+      obtain ⟨h1, h2, h3⟩ := C18_setter_unsound_outside_fullyChecked np.array t hw hcap hck
+      have := h (unsoundWitness t) (unsoundWitness t) h1
+        (fun cls u fs slots ht => by subst ht; simp [fullyChecked] at hck) h2
+      rw [h3] at this; exact absurd this (by decide)
+  · intro hck x v hnd hobj h
+    exact C18_setter_sound_partial np t x v hck hnd hobj h
+
+/-- Non-vacuity of the three statements above on `uint7[<=4]` and on an array of composites. -/
+example : fullyChecked (.arr false 4 (.int false 7 false)) = false
+    ∧ unsoundWitness (.arr false 2 (.int false 7 false)) = .nd (.u 8) [.int 128, .int 128]
+    ∧ setField npArray (.arr false 4 (.int false 7 false)) (.list [.int 127, .int 0]) = .ok (.nd (.u 8) [.int 127, .int 0])
+    ∧ unsoundWitness (.arr true 1 (.comp 3 false [.bool])) = .nd .obj [.int 1] := by
+  refine ⟨rfl, rfl, rfl, rfl⟩
+
+/-! ### composite fields: exactly the declared class -/
+
+/-- A composite-typed field accepts an instance of a generated class **iff** that class is the declared one — same
+namespace, same short name, same major **and** minor version; every other class of the run (another minor or major
+version, a namesake from another namespace, a structurally identical definition) raises `ValueError`. -/
+theorem C18_composite_setter_accepts_exactly_declared_class (np : Oracle) (tbl : List ClsKey) (decl cand : ClsKey)
+    (union : Bool) (fs : List Ty) (slots : List Py) (hd : decl ∈ tbl) :
+    (cand = decl → setField np (.comp (clsOf tbl decl) union fs) (.obj (clsOf tbl cand) slots)
+        = .ok (.obj (clsOf tbl decl) slots))
+    ∧ (cand ≠ decl → setField np (.comp (clsOf tbl decl) union fs) (.obj (clsOf tbl cand) slots) = .error .value) := by
+  constructor
+  · rintro rfl; simp [setField, pure, Except.pure]
+  · intro hne
+    have : clsOf tbl cand ≠ clsOf tbl decl := fun h => hne (idxOf_inj tbl decl cand hd h.symm).symm
+    simp [setField, this, throw, throwThe, MonadExceptOf.throw]
+
+/-- … in particular an instance created through the package alias `Name_M` (the newest minor version,
+`C18_alias_is_newest_minor`) is accepted by a field declared as `Name.M.m` iff `m` is that newest minor: a field
+declared with an OLDER minor version rejects it. -/
+theorem C18_alias_instance_accepted_iff_declared_is_newest (np : Oracle) (tbl : List ClsKey) (decl : ClsKey)
+    (union : Bool) (fs : List Ty) (slots : List Py) (hd : decl ∈ tbl) :
+    (∃ v, setViaAlias np tbl decl union fs decl.ns decl.name decl.major slots = .ok v)
+      ↔ newestMinor ((tbl.filter (fun k => k.ns = decl.ns)).map keyTyId) decl.name decl.major = some decl.minor := by
+  unfold setViaAlias
+  cases hk : newestMinor ((tbl.filter (fun k => k.ns = decl.ns)).map keyTyId) decl.name decl.major with
+  | none => simp
+  | some k =>
+    have hacc := C18_composite_setter_accepts_exactly_declared_class np tbl decl
+      ⟨decl.ns, decl.name, decl.major, k⟩ union fs slots hd
+    simp only [Option.some.injEq]
+    constructor
+    · rintro ⟨v, hv⟩
+      by_cases hkm : k = decl.minor
+      · exact hkm
+      · have hne : (⟨decl.ns, decl.name, decl.major, k⟩ : ClsKey) ≠ decl := by
+          intro h; exact hkm (by rw [← h])
+        rw [hacc.2 hne] at hv; simp at hv
+    · rintro rfl
+      exact ⟨_, hacc.1 rfl⟩
+
+/-- Non-vacuity (`Point.1.0`, `Point.1.1`, `other.Point.1.0`): a field declared `geo.Point.1.0` rejects an instance of
+`geo.Point_1` (= `Point_1_1`), of `Point_1_1`, of `other.Point_1_0`; a field declared `geo.Point.1.1` accepts the alias. -/
+example :
+    let tbl : List ClsKey := [⟨["v", "geo"], "Point", 1, 0⟩, ⟨["v", "geo"], "Point", 1, 1⟩, ⟨["v", "other"], "Point", 1, 0⟩]
+    setViaAlias npArray tbl ⟨["v", "geo"], "Point", 1, 0⟩ false [.bool] ["v", "geo"] "Point" 1 [.bool true] = .error .value
+    ∧ setViaAlias npArray tbl ⟨["v", "geo"], "Point", 1, 1⟩ false [.bool] ["v", "geo"] "Point" 1 [.bool true]
+        = .ok (.obj 1 [.bool true])
+    ∧ setField npArray (.comp (clsOf tbl ⟨["v", "geo"], "Point", 1, 0⟩) false [.bool])
+        (.obj (clsOf tbl ⟨["v", "other"], "Point", 1, 0⟩) [.bool true]) = .error .value
+    ∧ setViaAlias npArray tbl ⟨["v", "geo"], "Point", 1, 0⟩ false [.bool] ["v", "geo"] "Nope" 1 [] = .error .other := by
+  refine ⟨?_, ?_, ?_, ?_⟩ <;> rfl
+
 /-! ### out-of-range and wrong-length candidates raise `ValueError` (and exactly which ones do not) -/
 
 /-- An `int` outside the field's inclusive range raises `ValueError` — for saturated and truncated fields alike
@@ -169,6 +296,41 @@ theorem C18_sequence_wrong_length_raises_ValueError (np : NumPy) (fixed : Bool) 
   · have henc : encodeStr fixed e (.nd (dtypeOf e) xs) = .nd (dtypeOf e) xs := by unfold encodeStr; split <;> rfl
     simp only [setField, assignArray, assignCore, henc]
     split <;> simpa [fastPath, hl] using hslow2
+
+/-- Inside the excluded region the setter is still sound for the candidates the property talks about: a list whose
+elements are values of the element type (integers in the *DSDL* range, well-typed instances of the element class)
+is stored as exactly those elements, or rejected for its length — whatever lawful oracle `numpy.array` is. -/
+theorem C18_setter_sound_on_well_typed_elements (np : NumPy) (fixed : Bool) (cap : Nat) (e : Ty) (xs : List Py) (v : Py)
+    (hw : wf (.arr fixed cap e) = true) (he : isInt e = true ∨ isComp e = true)
+    (hall : ∀ y ∈ xs, hasTy true e y = true)
+    (h : setField np.array (.arr fixed cap e) (.list xs) = .ok v) :
+    v = .nd (dtypeOf e) xs ∧ hasTy true (.arr fixed cap e) v = true := by
+  have hin : ∀ y ∈ xs, inDT (dtypeOf e) y = true ∧ (dtypeOf e = .obj → isObj y = true) := by
+    intro y hy
+    have hty := hall y hy
+    cases e with
+    | int s w c =>
+      simp only [wf, isArr, Bool.not_false, Bool.true_and, Bool.and_eq_true, decide_eq_true_eq] at hw
+      exact ⟨hasTy_int_inDT s w c y hw.2 hty, fun hd => by cases s <;> simp [dtypeOf] at hd⟩
+    | comp cls u fs =>
+      refine ⟨by simp [dtypeOf, inDT], fun _ => ?_⟩
+      cases y <;> simp_all [hasTy, isObj]
+    | bool => simp [isInt, isComp] at he
+    | float w c => simp [isInt, isComp] at he
+    | arr a b c => simp [isInt, isComp] at he
+  cases hl : lenOK fixed cap xs.length with
+  | false =>
+    have := (C18_sequence_wrong_length_raises_ValueError np fixed cap e xs hin hl).1
+    rw [this] at h; simp at h
+  | true =>
+    have hst := assignArray_list np fixed cap e xs hin hl
+    simp only [setField] at h
+    rw [hst] at h
+    have hv : v = .nd (dtypeOf e) xs := by simpa using h.symm
+    subst hv
+    refine ⟨rfl, ?_⟩
+    simp only [hasTy, decide_true, Bool.true_and, hl, Bool.and_eq_true, Bool.or_eq_true]
+    exact ⟨List.all_eq_true.2 (fun y hy => (hin y hy).1), Or.inr (List.all_eq_true.2 hall)⟩
 
 /-! ### constructors -/
 
@@ -409,6 +571,95 @@ example :
     ∧ update npArray U (.obj 3 [.int 5, .none]) (.dict [.int 1, .bool true] false) = .ok (.obj 3 [.none, .bool true]) := by
   refine ⟨?_, ?_, ?_⟩ <;> rfl
 
+/-- Statement 2 carried through `update_from_builtin`: applied to a union object that holds exactly one option, with
+**any** source — a dict with any keys (none, several, unknown ones), a positional list or tuple, a bare scalar —
+a call that returns leaves exactly one option selected (the loop assigns through the union setters). -/
+theorem C18_update_keeps_one_option (np : Oracle) (cls c : Nat) (fs : List Ty) (slots : List Py) (v o : Py)
+    (h1 : countSome slots = 1) (h : update np (.comp cls true fs) (.obj c slots) v = .ok o) :
+    ∃ slots', o = .obj c slots' ∧ slots'.length = slots.length ∧ countSome slots' = 1 := by
+  simp only [update, isComp, isObj, Bool.and_self, if_true, updSlot, isNone, Bool.false_eq_true, if_false] at h
+  split at h
+  · rename_i c' sl vals extra heq
+    cases heq
+    cases hq : updU np fs vals [] slots with
+    | error _ => rw [hq] at h; simp [bind, Except.bind] at h
+    | ok res =>
+      rw [hq] at h
+      simp only [bind, Except.bind] at h
+      split at h
+      · simp [throw, throwThe, MonadExceptOf.throw] at h
+      · simp only [pure, Except.pure, Except.ok.injEq] at h
+        obtain ⟨r1, r2⟩ := updU_one np fs vals [] slots res (by simpa using h1) hq
+        exact ⟨res, h.symm, by simpa using r2, r1⟩
+  · simp at h
+  · rename_i src _ _ c' sl heq _ _
+    cases heq
+    cases hp : positional true fs src with
+    | error _ => rw [hp] at h; simp [bind, Except.bind] at h
+    | ok vals =>
+      rw [hp] at h
+      simp only [bind, Except.bind] at h
+      cases hq : updU np fs vals [] slots with
+      | error _ => rw [hq] at h; simp at h
+      | ok res =>
+        rw [hq] at h
+        simp only [pure, Except.pure, Except.ok.injEq] at h
+        obtain ⟨r1, r2⟩ := updU_one np fs vals [] slots res (by simpa using h1) hq
+        exact ⟨res, h.symm, by simpa using r2, r1⟩
+  · simp at h
+
+/-- A source dict with a key that names no field never yields an object (`ValueError: No such fields`, or the
+exception of a field assignment that failed before the check). -/
+theorem C18_update_rejects_unknown_keys (np : Oracle) (t : Ty) (d o : Py) (vals : List Py) :
+    update np t d (.dict vals true) ≠ .ok o := by
+  intro h
+  unfold update at h
+  split at h
+  · cases t with
+    | comp cls union fs =>
+      simp only [updSlot] at h
+      split at h
+      · rename_i c sl vals' extra _ hv
+        cases hv
+        cases hq : (if union = true then updU np fs vals [] sl else updS np fs sl vals) with
+        | error _ => rw [hq] at h; simp [bind, Except.bind] at h
+        | ok res => rw [hq] at h; simp [bind, Except.bind, throw, throwThe, MonadExceptOf.throw] at h
+      · simp at h
+      · rename_i hnd _
+        exact absurd rfl (hnd vals true)
+      · simp at h
+    | _ => simp_all [isComp]
+  · simp at h
+
+set_option maxRecDepth 100000 in
+/-- Positional sources, `None`, byte strings and the error cases of `update_from_builtin` in the model
+(`S` = structure {uint8[<=4] name; U u; uint7 n}, `U` = union {uint7 a; bool b}): a bare scalar / a short list fill
+the first fields; more values than fields are handed to the first field when it is an array (then the length check
+of its setter decides); two values for a two-option union select the LAST option, three are too many (`TypeError`); `None` for an integer: `TypeError`;
+`bytes` / `str` / list for a byte array; an over-long string: `ValueError`; a union nested in an array of unions. -/
+example :
+    let U := Ty.comp 3 true [.int false 7 false, .bool]
+    let S := Ty.comp 1 false [.arr false 4 (.int false 8 false), U, .int false 7 false]
+    let A := Ty.comp 4 false [.arr false 2 U]
+    let d := defaultVal S
+    update npArray S d (.str [104, 105]) = .ok (.obj 1 [.nd (.u 8) [.int 104, .int 105], .obj 3 [.int 0, .none], .int 0])
+    ∧ update npArray S d (.list [.bytes false [1, 2], .list [.int 5], .int 9])
+        = .ok (.obj 1 [.nd (.u 8) [.int 1, .int 2], .obj 3 [.int 5, .none], .int 9])
+    ∧ update npArray S d (.list [.int 1, .int 2, .int 3, .int 4]) = .ok (.obj 1 [.nd (.u 8) [.int 1, .int 2, .int 3, .int 4], .obj 3 [.int 0, .none], .int 0])
+    ∧ update npArray S d (.list [.int 1, .int 2, .int 3, .int 4, .int 5]) = .error .value
+    ∧ update npArray U (defaultVal U) (.list [.int 1, .int 2]) = .ok (.obj 3 [.none, .bool true])
+    ∧ update npArray U (defaultVal U) (.list [.int 1, .int 2, .int 3]) = .error .type
+    ∧ update npArray S d (.dict [.missing, .missing, .none] false) = .error .type
+    ∧ update npArray S d (.dict [.str [97, 98, 99, 100, 101], .missing, .missing] false) = .error .value
+    ∧ update npArray S d (.dict [.missing, .dict [.missing, .none] false, .missing] false)
+        = .ok (.obj 1 [.nd (.u 8) [], .obj 3 [.none, .bool false], .int 0])
+    ∧ update npArray A (defaultVal A) (.dict [.list [.dict [.missing, .bool true] false, .list [.int 7]]] false)
+        = .ok (.obj 4 [.nd .obj [.obj 3 [.none, .bool true], .obj 3 [.int 7, .none]]])
+    ∧ update npArray A (defaultVal A) (.dict [.none] false) = .error .type
+    ∧ updateTop npArray true (.comp 9 false []) (.obj 9 []) (.dict [] false) = .error .type
+    ∧ toBuiltinTop true (.comp 9 false []) (.obj 9 []) = .error .type := by
+  refine ⟨?_, ?_, ?_, ?_, ?_, ?_, ?_, ?_, ?_, ?_, ?_, ?_, ?_⟩ <;> rfl
+
 /-! ## 3. reflection: package aliases and `get_class` (the `_MODEL_` blob itself is compared by the harness) -/
 
 /-- The alias `Name_M` of a namespace package refers to a minor version that exists and is numerically the
@@ -484,5 +735,158 @@ example :
     doImport (fun p => tree.contains p) [] ["kw", "filter", "if"] = some ["kw", "filter_", "if_"]
     ∧ ["kw", "filter", "if"].map (strop reserved) = ["kw", "filter_", "if_"] := by
   constructor <;> decide
+
+/-! ## 3b. reflection: `get_model(C)` is the model that was rendered, a function of the run's input only
+
+(definitions: `Model/PyReflect.lean`, namespace `NunavutVerif.PyReflect`; the theorems stay in this file's namespace) -/
+open NunavutVerif.PyReflect
+
+/-- With overwriting allowed (the default) a generation run never fails on what the directory already holds. -/
+theorem C18_regeneration_never_blocked {M B : Type} (c : Codec M B) (fs : FS B) (defs : List (Def M)) :
+    ∃ fs', generateAll c true fs defs = .ok fs' :=
+  writeAll_allow _ _
+
+/-- T3 (every pre-existing directory content `fs`, every codec, both overwrite settings, every run whose definitions
+have distinct module files none of which is called like a namespace package): after a run that returns, `get_model`
+of **every** class of the run is the model the run was given for that class — the definition's own model for a
+message class and for the outer class of a service, `request_type` / `response_type` for the nested `Request` /
+`Response` classes.  Nothing about `fs` (older revisions of the same files, their age, other files) appears. -/
+theorem C18_get_model_is_rendered_model {M B : Type} (c : Codec M B) (allow : Bool) (fs fs' : FS B)
+    (defs : List (Def M)) (hmods : (defs.map modulePath).Nodup) (hdisj : ∀ d ∈ defs, modulePath d ∉ packages defs)
+    (h : generateAll c allow fs defs = .ok fs') (d : Def M) (hd : d ∈ defs) :
+    classModel c fs' (modulePath d) [shortRef d] = some d.model
+    ∧ ∀ rq rs, d.svc = some (rq, rs) →
+        classModel c fs' (modulePath d) [shortRef d, "Request"] = some rq
+        ∧ classModel c fs' (modulePath d) [shortRef d, "Response"] = some rs := by
+  have hspec := (writeAll_spec allow (outputs c defs) fs fs' (outputs_nodup c defs hmods hdisj) h).1
+  have hfile : fs' (modulePath d) = some (renderType c d) :=
+    hspec (modulePath d, renderType c d) (by
+      simp only [outputs, List.mem_append, List.mem_map]
+      exact Or.inl ⟨d, hd, rfl⟩)
+  cases hs : d.svc with
+  | none =>
+    refine ⟨?_, fun rq rs h => by simp at h⟩
+    simp [classModel, hfile, renderType, hs, List.lookup, c.inv]
+  | some p =>
+    obtain ⟨rq, rs⟩ := p
+    refine ⟨?_, ?_⟩
+    · simp [classModel, hfile, renderType, hs, List.lookup, c.inv]
+    · intro rq' rs' he
+      simp only [Option.some.injEq, Prod.mk.injEq] at he
+      obtain ⟨rfl, rfl⟩ := he
+      constructor <;> simp [classModel, hfile, renderType, hs, List.lookup, c.inv]
+
+/-- … stated as independence: two runs with the same input into two *arbitrary* directories (any earlier revisions
+in them, either overwrite setting) leave identical content under every output path of the run; and paths that are not
+outputs of the run keep what they held (stale modules of deleted definitions stay as they were). -/
+theorem C18_generated_files_independent_of_directory {M B : Type} (c : Codec M B) (a1 a2 : Bool)
+    (fs1 fs2 fs1' fs2' : FS B) (defs : List (Def M))
+    (hmods : (defs.map modulePath).Nodup) (hdisj : ∀ d ∈ defs, modulePath d ∉ packages defs)
+    (h1 : generateAll c a1 fs1 defs = .ok fs1') (h2 : generateAll c a2 fs2 defs = .ok fs2') :
+    (∀ p ∈ (outputs c defs).map Prod.fst, fs1' p = fs2' p)
+    ∧ (∀ p, p ∉ (outputs c defs).map Prod.fst → fs1' p = fs1 p) := by
+  have hn := outputs_nodup c defs hmods hdisj
+  obtain ⟨s1, f1⟩ := writeAll_spec a1 (outputs c defs) fs1 fs1' hn h1
+  obtain ⟨s2, _⟩ := writeAll_spec a2 (outputs c defs) fs2 fs2' hn h2
+  refine ⟨?_, f1⟩
+  intro p hp
+  obtain ⟨pf, hpf, rfl⟩ := List.mem_map.1 hp
+  rw [s1 pf hpf, s2 pf hpf]
+
+/-- … and so is the model of a class independent of every *other* definition of the run: it is `d.model` for any
+run that contains `d` (corollary, spelled out for two different runs into the same directory history). -/
+theorem C18_get_model_independent_of_other_definitions {M B : Type} (c : Codec M B) (fs1 fs2 fs1' fs2' : FS B)
+    (defs1 defs2 : List (Def M)) (d : Def M) (hd1 : d ∈ defs1) (hd2 : d ∈ defs2)
+    (hm1 : (defs1.map modulePath).Nodup) (hj1 : ∀ d ∈ defs1, modulePath d ∉ packages defs1)
+    (hm2 : (defs2.map modulePath).Nodup) (hj2 : ∀ d ∈ defs2, modulePath d ∉ packages defs2)
+    (h1 : generateAll c true fs1 defs1 = .ok fs1') (h2 : generateAll c true fs2 defs2 = .ok fs2') :
+    classModel c fs1' (modulePath d) [shortRef d] = classModel c fs2' (modulePath d) [shortRef d] := by
+  rw [(C18_get_model_is_rendered_model c true fs1 fs1' defs1 hm1 hj1 h1 d hd1).1,
+    (C18_get_model_is_rendered_model c true fs2 fs2' defs2 hm2 hj2 h2 d hd2).1]
+
+/-- `get_model(pkg.Name_M)` — lookup through the alias of the namespace package — is the model of the definition
+with the **newest minor** version of `(Name, M)` in that package (`hk`), in the same run.  `halias`: no other
+`(name, major)` of the package spells the same alias (`Name_M` is read as a string by Python). -/
+theorem C18_get_model_through_alias {M B : Type} (c : Codec M B) (allow : Bool) (fs fs' : FS B) (defs : List (Def M))
+    (hmods : (defs.map modulePath).Nodup) (hdisj : ∀ d ∈ defs, modulePath d ∉ packages defs)
+    (h : generateAll c allow fs defs = .ok fs') (d : Def M) (hd : d ∈ defs) (hns : d.ns ≠ [])
+    (hk : newestMinor ((defs.filter fun e => e.ns = d.ns).map tyId) d.name d.major = some d.minor)
+    (halias : ∀ e ∈ defs, e.ns = d.ns → aliasName e.name e.major = aliasName d.name d.major →
+      e.name = d.name ∧ e.major = d.major) :
+    getModelVia c fs' d.ns (aliasName d.name d.major) = some d.model := by
+  have hspec := (writeAll_spec allow (outputs c defs) fs fs' (outputs_nodup c defs hmods hdisj) h).1
+  have hpkg : fs' d.ns = some (renderPackage defs d.ns) :=
+    hspec (d.ns, renderPackage defs d.ns) (by
+      simp only [outputs, List.mem_append, List.mem_map]
+      refine Or.inr ⟨d.ns, ?_, rfl⟩
+      simp only [packages, mem_dedup, List.mem_flatMap]
+      exact ⟨d, hd, self_mem_prefixes d.ns hns⟩)
+  have hhere : d ∈ defs.filter (fun e => e.ns = d.ns) := List.mem_filter.2 ⟨hd, by simp⟩
+  -- the alias table maps `Name_M` to the short reference name of `d`
+  have hlook : (((aliases ((defs.filter fun e => e.ns = d.ns).map tyId)).map fun t =>
+      (aliasName t.name t.major, s!"{t.name}_{t.major}_{t.minor}")).lookup (aliasName d.name d.major))
+      = some (shortRef d) := by
+    apply lookup_of_unique
+    · obtain ⟨u, hu, hun, hum⟩ := aliasesFrom_complete ((defs.filter fun e => e.ns = d.ns).map tyId)
+        ((defs.filter fun e => e.ns = d.ns).map tyId) [] (tyId d) (List.mem_map.2 ⟨d, hhere, rfl⟩)
+        (by simp) ⟨d.minor, hk⟩
+      refine ⟨_, List.mem_map.2 ⟨u, hu, rfl⟩, ?_⟩
+      simp only [tyId] at hun hum
+      simp [hun, hum]
+    · intro e he hkey
+      obtain ⟨u, hu, rfl⟩ := List.mem_map.1 he
+      have hnew := aliasesFrom_sound _ _ _ u hu
+      obtain ⟨⟨dep, hmem⟩, _⟩ := C18_alias_is_newest_minor _ _ _ _ hnew
+      obtain ⟨e0, he0, hte⟩ := List.mem_map.1 hmem
+      obtain ⟨he0d, he0ns⟩ := List.mem_filter.1 he0
+      simp only [decide_eq_true_eq] at he0ns
+      simp only [tyId, TyId.mk.injEq] at hte
+      have := halias e0 he0d he0ns (by rw [hte.1, hte.2.1]; exact hkey)
+      have hun : u.name = d.name := by rw [← hte.1]; exact this.1
+      have hum : u.major = d.major := by rw [← hte.2.1]; exact this.2
+      rw [hun, hum, hk] at hnew
+      simp only [Option.some.injEq] at hnew
+      simp only [shortRef, hun, hum, ← hnew]
+  have hfind : ((defs.filter fun e => e.ns = d.ns).map fun e => (modulePath e, shortRef e)).find?
+      (fun mc => mc.2 = shortRef d) = some (modulePath d, shortRef d) := by
+    have hex : ∃ x ∈ ((defs.filter fun e => e.ns = d.ns).map fun e => (modulePath e, shortRef e)),
+        (fun mc : Path × String => decide (mc.2 = shortRef d)) x = true :=
+      ⟨(modulePath d, shortRef d), List.mem_map.2 ⟨d, hhere, rfl⟩, by simp⟩
+    cases hf : ((defs.filter fun e => e.ns = d.ns).map fun e => (modulePath e, shortRef e)).find?
+        (fun mc => mc.2 = shortRef d) with
+    | none =>
+      rw [List.find?_eq_none] at hf
+      obtain ⟨x, hx, hpx⟩ := hex
+      exact absurd hpx (hf x hx)
+    | some mc =>
+      have hp := List.find?_some hf
+      have hm := List.mem_of_find?_eq_some hf
+      obtain ⟨e, he, rfl⟩ := List.mem_map.1 hm
+      obtain ⟨_, hens⟩ := List.mem_filter.1 he
+      simp only [decide_eq_true_eq] at hens hp
+      simp only [modulePath, hens, hp]
+  simp only [getModelVia, packageAttr, hpkg, renderPackage, hlook, Option.getD_some, hfind, Option.bind_some]
+  exact (C18_get_model_is_rendered_model c allow fs fs' defs hmods hdisj h d hd).1
+
+/-- Non-vacuity: the history of seeded C18-13 in the model.  Revision 0 (`Bar` = m0, `Foo` nests it = f0) is generated
+into an empty directory; then only `Bar` is edited, which changes the model of `Foo` too (f1), and the namespace is
+regenerated into the same directory: `get_model(Foo_1_0)` is f1, the alias follows the new minor version, and a
+definition that is no longer part of the run keeps its stale module. -/
+example :
+    let r0 : List (Def String) := [⟨["ns"], "Bar", 1, 0, "m0", none⟩, ⟨["ns"], "Foo", 1, 0, "f0", none⟩,
+                                   ⟨["ns"], "Gone", 1, 0, "g", none⟩, ⟨["ns"], "Svc", 1, 0, "s0", some ("q0", "r0")⟩]
+    let r1 : List (Def String) := [⟨["ns"], "Bar", 1, 0, "m1", none⟩, ⟨["ns"], "Bar", 1, 1, "m1b", none⟩,
+                                   ⟨["ns"], "Foo", 1, 0, "f1", none⟩, ⟨["ns"], "Svc", 1, 0, "s1", some ("q1", "r1")⟩]
+    let fs := regenerate idCodec emptyFS [r0, r1]
+    classModel idCodec fs ["ns", "Foo_1_0"] ["Foo_1_0"] = some "f1"
+    ∧ classModel idCodec fs ["ns", "Svc_1_0"] ["Svc_1_0", "Request"] = some "q1"
+    ∧ getModelVia idCodec fs ["ns"] "Bar_1" = some "m1b"
+    ∧ getModelVia idCodec (regenerate idCodec emptyFS [r0]) ["ns"] "Bar_1" = some "m0"
+    ∧ classModel idCodec fs ["ns", "Gone_1_0"] ["Gone_1_0"] = some "g"
+    ∧ getModelVia idCodec fs ["ns"] "Gone_1" = none
+    ∧ (match generateAll idCodec false (regenerate idCodec emptyFS [r0]) r1 with
+        | .error .exists => true
+        | _ => false) = true := by
+  refine ⟨?_, ?_, ?_, ?_, ?_, ?_, ?_⟩ <;> decide
 
 end NunavutVerif.PyObj
